@@ -7,6 +7,7 @@ use crate::algo::floyd_warshall::floyd_warshall_path;
 use crate::algo::{dijkstra, min_spanning_tree, BoundedMeasure, Measure};
 use crate::data::FromElements;
 use crate::graph::{IndexType, NodeIndex, UnGraph};
+use crate::unionfind::UnionFind;
 use crate::visit::{
     Data, EdgeRef, GraphBase, GraphProp, IntoEdgeReferences, IntoEdges, IntoNeighbors,
     IntoNodeIdentifiers, IntoNodeReferences, NodeCompactIndexable, NodeIndexable, Visitable,
@@ -195,6 +196,21 @@ where
         subgraph_edges.contains(&(edge.0, edge.1)) || subgraph_edges.contains(&(edge.1, edge.0))
     });
     graph.retain_nodes(|_, n| subgraph_nodes.contains(&n));
+
+    // The union of the shortest paths may contain cycles (two paths can share their end nodes
+    // and differ in between): keep a minimum spanning forest of it.
+    let mut path_edges = graph
+        .edge_references()
+        .map(|e| (*e.weight(), e.id(), e.source(), e.target()))
+        .collect::<Vec<_>>();
+    path_edges.sort_by(|a, b| a.0.cmp(&b.0));
+    let mut components = UnionFind::new(graph.node_bound());
+    let forest_edges = path_edges
+        .into_iter()
+        .filter(|&(_, _, a, b)| components.union(a.index(), b.index()))
+        .map(|(_, id, _, _)| id)
+        .collect::<HashSet<_>>();
+    graph.retain_edges(|_, e| forest_edges.contains(&e));
 
     let non_terminal_nodes = non_terminal_leaves(&graph, terminals);
     graph.retain_nodes(|_, n| !non_terminal_nodes.contains(&n));
